@@ -8,7 +8,7 @@
    of per-face terms along each axis; the sum over the lattice telescopes to the boundary faces,
    whose pattern is empty. *)
 From Coq Require Import List ZArith NArith Lia Bool.
-From Sdfx Require Import Generated.MarchTables Render.MC.
+From Sdfx Require Import Generated.MarchTables Render.Balance Render.MC.
 Import ListNotations.
 Open Scope Z_scope.
 
@@ -55,16 +55,6 @@ Qed.
 
 (* ------------------------------------------------------------------ configuration of a cell *)
 Definition pt := (Z * Z * Z)%type.
-
-(* index |= 1 << i  for each corner with v[i] < x *)
-Definition cfg_of_bools (b0 b1 b2 b3 b4 b5 b6 b7 : bool) : N :=
-  (b2n b0 + 2 * b2n b1 + 4 * b2n b2 + 8 * b2n b3 + 16 * b2n b4 + 32 * b2n b5 + 64 * b2n b6 + 128 * b2n b7)%N.
-
-Lemma cfg_of_bools_spec b0 b1 b2 b3 b4 b5 b6 b7 :
-  let c := cfg_of_bools b0 b1 b2 b3 b4 b5 b6 b7 in
-  (c < 256)%N /\ N.testbit c 0 = b0 /\ N.testbit c 1 = b1 /\ N.testbit c 2 = b2 /\ N.testbit c 3 = b3 /\
-  N.testbit c 4 = b4 /\ N.testbit c 5 = b5 /\ N.testbit c 6 = b6 /\ N.testbit c 7 = b7.
-Proof. destruct b0, b1, b2, b3, b4, b5, b6, b7; vm_compute; repeat split. Qed.
 
 Definition cfg_at (sgn : pt -> bool) (p : pt) : N :=
   cfg_of_bools (sgn (addp p (corner_off 0))) (sgn (addp p (corner_off 1))) (sgn (addp p (corner_off 2)))
